@@ -8,6 +8,7 @@ import (
 	"bufio"
 	"bytes"
 	"fmt"
+	"mime"
 	"os"
 	"os/exec"
 	"strconv"
@@ -121,6 +122,10 @@ func cmdC14Child(args []string) {
 		}
 		if o.parent == "" {
 			mimetype.Extend(o.pred.fn(), o.mime, o.ext, al...)
+		} else if strings.HasPrefix(o.parent, "@") {
+			// Extend on a value handed out by Detect (a copy, not a node of the tree): the tree must not change
+			x, _ := hexDecode(o.parent[1:])
+			mimetype.Detect(x).Extend(o.pred.fn(), o.mime, o.ext, al...)
 		} else {
 			p := mimetype.Lookup(o.parent)
 			if p == nil {
@@ -162,7 +167,11 @@ func cmdC14Child(args []string) {
 				if m.Parent() != nil {
 					par = m.Parent().String()
 				}
-				got = m.String() + "|" + m.Extension() + "|" + par + "|" + fmt.Sprint(m.Is(name))
+				isv := "true" // Is normalises its argument: only asked for names that are in normal form already
+				if norm, _, err := mime.ParseMediaType(name); err == nil && norm == name {
+					isv = fmt.Sprint(m.Is(name))
+				}
+				got = m.String() + "|" + m.Extension() + "|" + par + "|" + isv
 			}
 			fmt.Fprintf(out, "extl\t%s\t%s\t%s\n", args[0], hx([]byte(name)), hx([]byte(got)))
 		}
@@ -209,6 +218,11 @@ func runC14(c *runCtx) {
 				// the first extension's name is registered once more, under the same parent, after the others
 				name, par = ops[0].mime, ops[0].parent
 			}
+			if h%4 == 2 && i == 0 {
+				// the receiver is a detection result whose type string is shared by two formats (har / json), or a leaf
+				recv := [][]byte{[]byte(`{"log":{"version":"1.2","entries":[]}}`), []byte(`{"a":1}`), []byte(`{"type":"Point"}`), []byte("GIF89a......."), []byte("plain text")}
+				par = "@" + hx(recv[(h/4)%len(recv)])
+			}
 			if chain {
 				name = fmt.Sprintf("application/x-verif-%d-%d", h, i)
 				if len(extNames) > 0 {
@@ -246,8 +260,18 @@ func runC14(c *runCtx) {
 			for a := r.Intn(3); a > 0; a-- {
 				al = append(al, fmt.Sprintf("application/x-verif-alias-%d-%d-%d", h, i, a))
 			}
+			// names are registered as given: an alias in mixed case, or carrying a parameter, is found by Lookup under
+			// exactly that spelling
+			switch r.Intn(4) {
+			case 0:
+				al = append(al, fmt.Sprintf("Application/X-Verif-Alias-%d-%d", h, i))
+			case 1:
+				al = append(al, fmt.Sprintf("application/x-verif-alias-%d-%d; version=2", h, i))
+			}
 			ops = append(ops, c14op{par, name, fmt.Sprintf(".v%d", i), al, pred})
-			extNames = append(extNames, name)
+			if !strings.HasPrefix(par, "@") { // registered on a copy: not a node of the tree, cannot be a parent later
+				extNames = append(extNames, name)
+			}
 		}
 		encs := make([]string, len(ops))
 		for i, o := range ops {
